@@ -282,7 +282,7 @@ func checkC02(w *World, r *Report) {
 	// that name is equal both times" and "captured by a closure" rest on the scope discipline of the evaluator
 	r.include("C02.binding-", "C01.", "a name bound in a scope keeps its value unless def rebinds it there: every binding form writes into a scope of its own", checkC01, func(rule string) bool {
 		switch rule {
-		case "C01.scope", "C01.lookup-order", "C01.lookup-pure", "C01.def":
+		case "C01.scope", "C01.scope-new", "C01.lookup-order", "C01.lookup-pure", "C01.def":
 			return true
 		}
 		return false
